@@ -372,9 +372,27 @@ func stressScenarios(rng *rand.Rand) map[string]func() int {
 					want += best
 				}
 				want /= float64(len(data))
+				// sequential update: every centre moves to the mean of the points nearest to it
+				sums := make([]numerical.Vec3, len(km.Centers))
+				counts := make([]int, len(km.Centers))
+				for _, v := range data {
+					bi, best := 0, math.Inf(1)
+					for i, c := range km.Centers {
+						if d := v.DistSquared(c); d < best {
+							bi, best = i, d
+						}
+					}
+					sums[bi] = sums[bi].Add(v)
+					counts[bi]++
+				}
 				got := km.Iterate()
 				if math.Abs(got-want) > 1e-9*math.Max(1, want) {
 					bad++
+				}
+				for i, c := range km.Centers {
+					if counts[i] > 0 && c.Dist(sums[i].Scale(1/float64(counts[i]))) > 1e-9 {
+						bad++
+					}
 				}
 			}
 			km.Assign(data[:100])
